@@ -13,6 +13,9 @@ na = []
 for p in props:
     pid = p["id"]
     c = conf.get(pid)
+    ready = open(os.path.join(V, "checks", "READY")).read().split()
+    if c and pid not in ready:
+        c = None
     if not c or c.get("disabled"):
         na.append({"property_id": pid, "reason": (c or {}).get("na_reason", "no check registered yet: the monitor for this property is still being built (see DESIGN.md section 4)")})
         continue
